@@ -8,7 +8,7 @@
    far, each with the flag "a waiter took it" (decided by the pending table at
    that moment); [app s] is what the application received from PDU();
    [sending s] the PDU Watch is handing over right now. *)
-From V Require Import Model.Base Model.ConnLTS Proofs.ConnBase Proofs.ConnC16.
+From V Require Import Model.Base Model.ConnLTS Model.ConnRun Proofs.ConnBase Proofs.ConnC16.
 Open Scope N_scope.
 
 (* In every reachable state, for any trace, any number of callers:
